@@ -77,14 +77,15 @@ def main():
     elif cmd == 'recheck':
         ids = sys.argv[2:] or sorted(os.listdir(RF))
         bad = 0
-        for rid in ids:
+
+        def one(rid):
             d = os.path.join(RF, rid)
             mp = os.path.join(d, 'meta.json')
             if not os.path.exists(mp):
-                continue
+                return rid, None
             meta = json.load(open(mp))
             if meta.get('judged') == 'not-equivalent':
-                continue
+                return rid, None
             patch = os.path.join(d, 'patch-rebased.diff')
             if not os.path.exists(patch):
                 patch = os.path.join(d, 'patch.diff')
@@ -92,8 +93,14 @@ def main():
             meta['checks_not_silent'] = res
             meta['silent'] = not res
             json.dump(meta, open(mp, 'w'), indent=1)
-            show(rid, res)
-            bad += bool(res)
+            return rid, res
+        from concurrent.futures import ThreadPoolExecutor
+        with ThreadPoolExecutor(max_workers=3) as ex:
+            for rid, res in ex.map(one, ids):
+                if res is None:
+                    continue
+                show(rid, res)
+                bad += bool(res)
         print('refactors: %d not silent' % bad)
         return 1 if bad else 0
     elif cmd == 'table':
